@@ -80,7 +80,10 @@ Definition sum_modes (x : tt R) (index : list nat) : tt R :=
 
 (* TT matrices: the same construction on the merged mode (a mode pair is removed iff both sizes are 1) *)
 Definition sum_modes4 (x : ttm R) (index : list nat) : ttm R :=
-  unflatM (keep_pos 0 (shapeM x) index) (keep_pos 0 (shapeN x) index) (sum_modes (flatM x) index).
+  match keep_pos 0 (shapeM x) index with
+  | [] => unflatM [1%nat] [1%nat] (sum_modes (flatM x) index)      (* everything summed: one 1x1x1x1 core is left *)
+  | ms => unflatM ms (keep_pos 0 (shapeN x) index) (sum_modes (flatM x) index)
+  end.
 
 (* dot(a, b, axis): b is embedded into a tensor of the shape of a (identity cores on the modes that are
    not contracted), multiplied elementwise and summed over axis *)
